@@ -10,13 +10,21 @@ package main
 //                     object between the two calls, including the accesses of module functions
 //                     called inside the section (inlined, receiver/parameters substituted)
 //   p4Accesses        every access to a guarded field through ANY expression (receiver, local,
-//                     parameter, free function, closure), with the lock held on that object at
+//                     parameter, free function, closure), with the locks held on that object at
 //                     that point (own function, or "<lock>/caller" when every call site of an
-//                     unexported helper holds it)
+//                     unexported, never-escaping helper holds it on the object it passes);
+//                     fields set in a composite literal are not accesses (a fresh object)
 //   p4Writers         every write of a field of a struct type the model treats as immutable
-//                     after construction, in every package, with the flags
+//                     after construction, in every package, with its kind (asg = assignment,
+//                     append, ++, delete, clear, &; lit = composite literal) and the flags
 //                     q (reachable from a query entry point without entering a constructor) and
 //                     c (constructor, or only ever called from constructors)
+//   p4GlobalWriters   the same for package-level variables of the module
+//
+// Call graph: static calls and references resolved by go/types; a call through an interface
+// stands for every module method of that name; a call of a function value for every module
+// function of identical signature that is used as a value somewhere.  A lock and an access
+// belong together when their base expressions print alike (`s.cacheMu.Lock()` / `s.cache`).
 //
 // Type information: the module's own packages are type-checked from source (go/types), their
 // external imports are read from the export data `go list -export` reports (the build cache
